@@ -16,6 +16,10 @@ use std::panic::{catch_unwind, AssertUnwindSafe};
 pub struct Case {
     pub string_labels: bool,
     pub init: Vec<L>,
+    /// new_argument / remove_argument applied to the ArgumentSet itself BEFORE the framework is
+    /// built from it (public API of ArgumentSet): the framework then starts with sparse ids
+    #[serde(default)]
+    pub pre: Vec<Upd>,
     pub ops: Vec<Upd>,
 }
 
@@ -66,6 +70,14 @@ fn gen_ops(rng: &mut Rng, universe: usize, n_ops: usize, store: &mut RefStore, i
 }
 
 fn compare<T: LabelType>(af: &AAFramework<T>, store: &RefStore, mk: &dyn Fn(L) -> T, universe: &[L], step: usize) -> Option<Violation> {
+    // observers must not panic either
+    match catch_unwind(AssertUnwindSafe(|| compare_inner(af, store, mk, universe, step))) {
+        Ok(v) => v,
+        Err(_) => Some(Violation::new("C12", "panic", format!("after step {}: a read-only observer (counts / iterators / grounded_extension) panicked", step))),
+    }
+}
+
+fn compare_inner<T: LabelType>(af: &AAFramework<T>, store: &RefStore, mk: &dyn Fn(L) -> T, universe: &[L], step: usize) -> Option<Violation> {
     let v = |check: &str, msg: String| Some(Violation::new("C12", check, format!("after step {}: {}", step, msg)));
     let args = store.args_by_id();
     if af.n_arguments() != args.len() {
@@ -146,7 +158,7 @@ fn compare<T: LabelType>(af: &AAFramework<T>, store: &RefStore, mk: &dyn Fn(L) -
 
 fn exec_t<T: LabelType>(case: &Case, mk: &dyn Fn(L) -> T, r: &mut RunResult) {
     let mut universe: Vec<L> = case.init.clone();
-    for u in &case.ops {
+    for u in case.pre.iter().chain(case.ops.iter()) {
         match u {
             Upd::AddArg(a) | Upd::DelArg(a) => universe.push(*a),
             Upd::AddAtt(a, b) | Upd::DelAtt(a, b) => {
@@ -162,7 +174,30 @@ fn exec_t<T: LabelType>(case: &Case, mk: &dyn Fn(L) -> T, r: &mut RunResult) {
         store.apply(&Upd::AddArg(*l));
     }
     let labels: Vec<T> = case.init.iter().map(|l| mk(*l)).collect();
-    let mut af = AAFramework::new_with_argument_set(ArgumentSet::new_with_labels(&labels));
+    let mut set = ArgumentSet::new_with_labels(&labels);
+    for u in &case.pre {
+        let c = store.apply(u);
+        match u {
+            Upd::AddArg(l) => set.new_argument(mk(*l)),
+            Upd::DelArg(l) => {
+                let res = set.remove_argument(&mk(*l));
+                if res.is_err() != (c == Applied::Invalid) {
+                    r.violations.push(Violation::new("C12", "result", format!("ArgumentSet::remove_argument({}) returned {:?}, model says {:?}", l, res.map(|a| a.id()).ok(), c)));
+                    return;
+                }
+            }
+            _ => {}
+        }
+        r.count("argument_set_ops_before_construction", 1);
+    }
+    let built = catch_unwind(AssertUnwindSafe(|| AAFramework::new_with_argument_set(set)));
+    let mut af = match built {
+        Ok(af) => af,
+        Err(_) => {
+            r.violations.push(Violation::new("C12", "panic", "AAFramework::new_with_argument_set panicked".into()));
+            return;
+        }
+    };
     if let Some(v) = compare(&af, &store, mk, &universe, 0) {
         r.violations.push(v);
         return;
@@ -246,8 +281,17 @@ impl Property for C12 {
             store.apply(&Upd::AddArg(*l));
         }
         let invalid_pct = *rng.pick(&[0usize, 5, 15, 40]);
+        let mut pre = vec![];
+        if rng.chance(1, 5) {
+            for _ in 0..rng.range(1, 5) {
+                let l = rng.below(universe) as L;
+                let u = if rng.bool() { Upd::AddArg(l) } else { Upd::DelArg(l) };
+                store.apply(&u);
+                pre.push(u);
+            }
+        }
         let ops = gen_ops(&mut rng, universe, n_ops, &mut store, invalid_pct);
-        serde_json::to_value(Case { string_labels: rng.bool(), init, ops }).unwrap()
+        serde_json::to_value(Case { string_labels: rng.bool(), init, pre, ops }).unwrap()
     }
     fn exec(&self, case: &Value) -> RunResult {
         let case: Case = serde_json::from_value(case.clone()).expect("C12 case");
@@ -297,6 +341,11 @@ impl Property for C12 {
             let mut init = case.init.clone();
             init.remove(i);
             out.push(Case { init, ..case.clone() });
+        }
+        for i in 0..case.pre.len() {
+            let mut pre = case.pre.clone();
+            pre.remove(i);
+            out.push(Case { pre, ..case.clone() });
         }
         out.into_iter().map(|c| serde_json::to_value(c).unwrap()).collect()
     }
